@@ -290,6 +290,7 @@ class Method:
         self.vars = dict(self.params)           # python name -> type; locals added in order of first binding
         self.locals = []
         self.uses_while = False
+        self.loop_defs = []
         self.counter = 0
 
     # -- names
@@ -877,7 +878,12 @@ class Method:
                 body = self.block(st.body, eb, True)
                 env['nn'] = env['nn'] - self._maybe_none_assigned(st.body)
                 self.uses_while = True
-                out.append('PyRtC18.whileLoop (fun s => decide (%s))\n%s\n  lfuel' % (c, indent(self._p(body))))
+                # the loop's condition and body are definitions of their own (`<method>.loop<k>.cond/.body`), so that
+                # tie proofs can state what ONE iteration does
+                k = len(self.loop_defs) + 1
+                ln = '%s.loop%d' % (self.name, k)
+                self.loop_defs.append((ln, 'fun s => decide (%s)' % c, body))
+                out.append('PyRtC18.whileLoop %s.cond %s.body lfuel' % (ln, ln))
             elif isinstance(st, ast.For):
                 if st.orelse or in_loop or not isinstance(st.target, ast.Name) or len(st.body) != 1 \
                         or not isinstance(st.body[0], ast.Expr) \
@@ -972,6 +978,10 @@ class Method:
             out.append('  %s : %s%s' % (fn, ft, '' if fn == py or fn == 'self' else '    -- ' + py))
         out.append('')
         lf = '(lfuel : Nat) ' if self.uses_while else ''
+        rty = self.ty(self.result_t) if ' ' not in self.ty(self.result_t) else '(%s)' % self.ty(self.result_t)
+        for ln, c, b in self.loop_defs:
+            out.append('def %s.cond %s: %s → Bool :=\n  %s\n' % (ln, tb, self.st, c))
+            out.append('def %s.body %s: PyRtC18.Stmt (%s) %s :=\n%s\n' % (ln, tb, self.st, rty, indent(b)))
         out.append('def %s.body %s%s: PyRtC18.Stmt (%s) %s :=\n%s\n' % (
             self.name, tb, lf, self.st, self.ty(self.result_t) if ' ' not in self.ty(self.result_t)
             else '(%s)' % self.ty(self.result_t), indent(text)))
